@@ -266,6 +266,18 @@ def raise_conditions(w: Walker):
     return out
 
 
+def validation_guard(exits, g, pol) -> bool:
+    """(g, pol) is the complement of a test whose other arm leaves the function (one of `exits`): `if bad: raise` puts
+    (bad, False) on everything after it; `if a or b: raise` puts (a, False) and (b, False)."""
+    for r in exits:
+        for rg, rp in r.guards:
+            if (rg, rp) == (g, not pol):
+                return True
+            if rp and not pol and rg[0] == "or" and g in rg[1]:
+                return True
+    return False
+
+
 def empty_input_test(g, pol) -> bool:
     """`len(arg) == 0` / `arg is None` / `arg.size == 0` / `not len(arg)`: the test of an empty argument."""
     t = g if pol else mk_not(g)
@@ -296,7 +308,7 @@ def main_returns(w: Walker):
     for e in w.events:
         if e.kind == "return" and e.fn is w.entry:
             if e.guards and not e.loops and empty_input_test(*e.guards[-1]) and all(
-                    any((g, not pol) in r.guards for r in w.events if r.kind == "raise") for g, pol in e.guards[:-1]):
+                    validation_guard([r for r in w.events if r.kind == "raise"], g, pol) for g, pol in e.guards[:-1]):
                 continue
             out.append(e)
     return out
@@ -312,7 +324,7 @@ def check_entry_unconditional(rep, w: Walker, guards, rule: str, what: str, line
     def validated(g, pol) -> bool:
         # the other arm of this very test leaves the function: by raising, or - for an empty argument - by returning
         for e in exits:
-            if (g, not pol) in e.guards:
+            if validation_guard([e], g, pol):
                 if e.kind == "raise" or empty_input(g, not pol):
                     return True
         return False
